@@ -182,6 +182,75 @@ func (s *searcher) canonical(t *Ty, b []byte) {
 	}
 }
 
+// readerCanonical: the io.Reader entry point (a Stream that cannot discover the input length, as on
+// a network connection or file). If a value is accepted, the bytes consumed must be exactly its
+// encoding; in particular an input that ends in the middle of a payload must be refused, never
+// completed with bytes that were not in the input.
+func (s *searcher) readerCanonical(b []byte) {
+	for _, op := range []string{"a", "u64", "r"} {
+		s.evals++
+		line := "stream unl " + hx.Hex(b) + " " + op
+		func() {
+			defer func() {
+				if p := recover(); p != nil {
+					s.finding("panic:stream", line, fmt.Sprint("panic: ", p))
+				}
+			}()
+			defer inCall(line)()
+			rd := bytes.NewReader(b)
+			st := rlp.NewStream(&unlimited{rd}, 0)
+			var e []byte
+			var err error
+			var shown string
+			switch op {
+			case "a":
+				var v interface{}
+				if err = st.Decode(&v); err == nil {
+					e, err = rlp.EncodeToBytes(v)
+					shown = showVal(reflect.ValueOf(&v).Elem())
+				}
+			case "u64":
+				var x uint64
+				if x, err = st.Uint(); err == nil {
+					e, err = rlp.EncodeToBytes(x)
+					shown = strconv.FormatUint(x, 10)
+				}
+			case "r":
+				var x []byte
+				if x, err = st.Raw(); err == nil {
+					e = x
+					shown = hx.Hex(x)
+				}
+			}
+			if err != nil {
+				return
+			}
+			c := len(b) - rd.Len()
+			if !bytes.Equal(e, b[:c]) {
+				s.finding("noncanon:reader-"+op, line, "accepted as "+clip(shown)+" after consuming "+strconv.Itoa(c)+
+					" of "+strconv.Itoa(len(b))+" input bytes ("+hx.Hex(b[:c])+"), but that value's encoding is "+clip(hx.Hex(e)))
+			}
+		}()
+	}
+}
+
+// readerFamily: every proper prefix of small encodings, a few cuts of larger ones, with and without
+// trailing data, through readerCanonical.
+func (s *searcher) readerFamily(e []byte, r *hx.Rng) {
+	s.readerCanonical(e)
+	s.readerCanonical(append(append([]byte(nil), e...), 0x01, 0x80))
+	if len(e) <= 70 {
+		for i := 0; i < len(e); i++ {
+			s.readerCanonical(e[:i])
+		}
+		return
+	}
+	for k := 0; k < 6; k++ {
+		s.readerCanonical(e[:r.Intn(len(e))])
+	}
+	s.readerCanonical(e[:len(e)-1])
+}
+
 // lossless: a normal-form value survives encode->decode.
 func (s *searcher) lossless(t *Ty, vtext string) []byte {
 	gv, err := buildVal(goType(t), vtext)
@@ -858,6 +927,28 @@ func searchMain(a map[string]string) {
 		}
 	}
 
+	// the io.Reader entry point on inputs cut short: boundary payload lengths, integers, nested lists
+	{
+		rr := hx.NewRng(hx.SeedFromEnv() ^ 0x6ead)
+		for _, n := range []int{1, 2, 3, 8, 9, 55, 56, 57, 255, 256, 300} {
+			pl := make([]byte, n)
+			for i := range pl {
+				pl[i] = byte(0x61 + i%26)
+			}
+			for _, tree := range []interface{}{pl, []interface{}{pl}, []interface{}{[]byte{0x01}, pl, []interface{}{pl[:n/2+1]}}} {
+				if e, err := rlp.EncodeToBytes(tree); err == nil {
+					s.readerFamily(e, rr)
+				}
+			}
+		}
+		for _, x := range []uint64{0, 1, 0x7f, 0x80, 0xff, 0x100, 0x1234, 0xffffff, 1 << 32, 1<<64 - 1} {
+			e, _ := rlp.EncodeToBytes(x)
+			// a second value on the same Stream after a first one: a cut-short integer must not be
+			// completed from what the previous read left behind
+			s.readerFamily(e, rr)
+		}
+	}
+
 	// exhaustive small scope, typed: every 1- and 2-byte input into a spread of types
 	small := []string{"u8", "u16", "u64", "big", "bool", "str", "bytes", "a0", "a1", "a2", "raw", "any", "S,u16", "S,bytes", "A1,u64", "A2,a1",
 		"P,u64", "R0", "R1,u64", "R2,a1,u64", "R2,u64,u64", "R1,nil,P,u64", "R1,nil,P,a1", "R2,nil,P,a1,u8", "R1,tail,S,u64", "R1,tail,S,a1", "R1,any", "R1,raw"}
@@ -1003,6 +1094,11 @@ func searchMain(a map[string]string) {
 		}
 		if round%64 == 0 {
 			s.concurrentOracle(r)
+		}
+		if round%4 == 1 {
+			if e, err := rlp.EncodeToBytes(randItem(r, 3, false)); err == nil && len(e) < 1<<16 {
+				s.readerFamily(e, r)
+			}
 		}
 		m := malformed(r)
 		s.canonical(anyT, m)
